@@ -8,12 +8,19 @@ COBS-decoded bytes — the size test with its short-circuit `||` (the right oper
 when the left ones are false), every `frame[k]` as a read that panics when `k` is not an index, the shifts and masks with
 Rust's widths (`<<` on `u16` drops the bits shifted out), the array fill loop as `Prim.fill8`. `Src.fromUsart` puts the
 model's COBS decoder in front of it (the `cobs` crate is modelled and tied by the correspondence check). The theorem: for
-every input the translated decoder computes what the model's `fromUsart` does — so C04's totality and well-formedness
+every input the translated decoder accepts what the model's `fromUsart` accepts, with the same frame, and panics exactly when it
+does (outright equality when the rejection reasons are the model's) — so C04's totality and well-formedness
 theorems and C09's round trip are about the size test and the field extraction as the code reads now. (This is the code
 in which the defect D2 of the pinned tree sat: a declared data length above 8 indexed the array out of bounds.)
 -/
 set_option linter.unusedSimpArgs false
 namespace Ross
+
+/-- two frame-decoder answers agree: the same frame is accepted, and one panics exactly when the other does (which of several
+applicable reasons a rejection reports is not constrained by any property) -/
+def FAgrees (a b : Res FErr Frame) : Prop := (∀ f, a = .ok f ↔ b = .ok f) ∧ (a = .panic ↔ b = .panic)
+
+theorem FAgrees.of_eq {a b : Res FErr Frame} (h : a = b) : FAgrees a b := by subst h; exact ⟨fun _ => Iff.rfl, Iff.rfl⟩
 
 theorem fromUsart_eq_body (enc : List UInt8) :
     fromUsart enc = match Cobs.decodeBody enc with
@@ -27,10 +34,11 @@ theorem shl8_u8 (x : UInt8) : (x.toNat <<< 8) % 65536 = x.toNat <<< 8 := by
 theorem shl8_and15 (x : Nat) : ((x &&& 15) <<< 8) % 65536 = (x &&& 15) <<< 8 := by
   have : x &&& 15 ≤ 15 := Nat.and_le_right; rw [Nat.shiftLeft_eq]; omega
 
-theorem src_fromUsartBody_eq : ∀ fr : List UInt8, Src.fromUsartBody fr = fromUsartModelBody fr := by
+theorem src_fromUsartBody_agrees : ∀ fr : List UInt8, FAgrees (Src.fromUsartBody fr) (fromUsartModelBody fr) := by
   first
-  | (intro fr; rfl)      -- not translated on this run
+  | (intro fr; refine FAgrees.of_eq ?_; simp only [Src.fromUsartBody]; done)      -- not translated on this run
   | (intro fr
+     refine FAgrees.of_eq ?_       -- same rejection reasons: equal outright
      simp only [Src.fromUsartBody, fromUsartModelBody, Prim.idxF, Prim.fill8]
      by_cases h5 : fr.length < 5
      · simp [h5]
@@ -40,14 +48,28 @@ theorem src_fromUsartBody_eq : ∀ fr : List UInt8, Src.fromUsartBody fr = fromU
        have h3 : 3 < fr.length := by omega
        have h4 : 4 < fr.length := by omega
        simp (disch := omega) [h5, rd_eq, Res.bind, bind, pure, shl8_u8, shl8_and15]
-       first | done | ((repeat' split) <;> simp_all [Nat.add_comm] <;> (try omega)))
+       first | done | ((repeat' split) <;> simp_all [Nat.add_comm] <;> (try omega))
+     done)
+  | (intro fr
+     unfold FAgrees                -- other reasons reported: same acceptance, same panics
+     simp only [Src.fromUsartBody, fromUsartModelBody, Prim.idxF, Prim.fill8]
+     by_cases h5 : fr.length < 5
+     · simp [h5, Res.bind, bind, pure]
+       first | done | ((repeat' split) <;> simp_all <;> (try omega))
+     · have h0 : 0 < fr.length := by omega
+       have h1 : 1 < fr.length := by omega
+       have h2 : 2 < fr.length := by omega
+       have h3 : 3 < fr.length := by omega
+       have h4 : 4 < fr.length := by omega
+       simp (disch := omega) [h5, rd_eq, Res.bind, bind, pure, shl8_u8, shl8_and15]
+       first | done | ((repeat' split) <;> simp_all [Nat.add_comm] <;> (try omega))
+     done)
 
-theorem src_fromUsart_eq (enc : List UInt8) : Src.fromUsart enc = fromUsart enc := by
+theorem src_fromUsart_agrees (enc : List UInt8) : FAgrees (Src.fromUsart enc) (fromUsart enc) := by
   rw [fromUsart_eq_body]; unfold Src.fromUsart
   cases Cobs.decodeBody enc with
-  | none => rfl
-  | some fr => exact src_fromUsartBody_eq fr
-
+  | none => exact FAgrees.of_eq rfl
+  | some fr => exact src_fromUsartBody_agrees fr
 
 /-! ## `Frame::from_bxcan_frame`
 
@@ -68,10 +90,11 @@ theorem and65535_mod (x : Nat) : (x &&& 65535) % 65536 = x &&& 65535 := by
 theorem shl8_and15' (x : Nat) : ((x &&& 15) <<< 8) % 65536 = (x &&& 15) <<< 8 := by
   have : x &&& 15 ≤ 15 := Nat.and_le_right; rw [Nat.shiftLeft_eq]; omega
 
-theorem src_fromCan_eq : ∀ c : CanFrame, Src.fromCan c = fromCan c := by
+theorem src_fromCan_agrees : ∀ c : CanFrame, FAgrees (Src.fromCan c) (fromCan c) := by
   first
-  | (intro c; rfl)      -- not translated on this run
+  | (intro c; refine FAgrees.of_eq ?_; simp only [Src.fromCan]; done)      -- not translated on this run
   | (intro c
+     refine FAgrees.of_eq ?_       -- same rejection reasons: equal outright
      simp only [Src.fromCan, fromCan, Prim.fill8, and15_mod, and65535_mod, shl8_and15']
      cases hx : c.ext <;> cases hr : c.rtr <;> simp [Res.bind, bind, pure]
      by_cases hp : 8 < c.dlc ∨ c.data.length < c.dlc
@@ -79,8 +102,21 @@ theorem src_fromCan_eq : ∀ c : CanFrame, Src.fromCan c = fromCan c := by
        simp [hp, hn]
      · have hy : (c.dlc = 0 ∨ c.dlc ≤ 8 ∧ c.dlc ≤ c.data.length) := by omega
        simp [hp, hy, List.head?_eq_getElem?]
-       first | done | ((repeat' split) <;> simp_all [List.head?_eq_getElem?] <;> (try omega)))
-
+       first | done | ((repeat' split) <;> simp_all [List.head?_eq_getElem?] <;> (try omega))
+     done)
+  | (intro c
+     unfold FAgrees                -- other reasons reported: same acceptance, same panics
+     simp only [Src.fromCan, fromCan, Prim.fill8, and15_mod, and65535_mod, shl8_and15']
+     cases hx : c.ext <;> cases hr : c.rtr <;> (try simp [Res.bind, bind, pure])
+     all_goals
+       (by_cases hp : 8 < c.dlc ∨ c.data.length < c.dlc
+        · have hn : ¬ (c.dlc = 0 ∨ c.dlc ≤ 8 ∧ c.dlc ≤ c.data.length) := by omega
+          simp [hp, hn]
+          first | done | (intros; omega) | ((repeat' split) <;> simp_all <;> (try omega))
+        · have hy : (c.dlc = 0 ∨ c.dlc ≤ 8 ∧ c.dlc ≤ c.data.length) := by omega
+          simp [hp, hy, List.head?_eq_getElem?]
+          first | done | ((repeat' split) <;> simp_all [List.head?_eq_getElem?] <;> (try omega)))
+     done)
 
 /-! ## `Frame::to_bxcan_frame`
 
@@ -157,8 +193,8 @@ theorem src_toUsart_eq : ∀ f : Frame, Src.toUsart f = toUsart f := by
        Nat.zero_or, ite_self]
      first | done | (simp only [Nat.or_assoc, Nat.or_comm, or_left_comm']; done) | ((repeat' split) <;> simp_all <;> (try omega)))
 
-#print axioms src_fromUsart_eq
+#print axioms src_fromUsart_agrees
 #print axioms src_toUsart_eq
 #print axioms src_toCan_eq
-#print axioms src_fromCan_eq
+#print axioms src_fromCan_agrees
 end Ross
